@@ -3,6 +3,7 @@
 package ecdsa
 
 import (
+	"crypto"
 	"crypto/elliptic"
 	"io"
 	"math/big"
@@ -112,22 +113,46 @@ func specKeyOK(pub *PublicKey) bool {
 // ---------------------------------------------------------------------------
 // Key blinding (draft-irtf-cfrg-signature-key-blinding)
 
-// SpecH2F(c, msg): hash_to_field(msg) with expand_message_xmd(H_c), DST "ECDSA Key Blind", modulus N_c and
-// security length L_c, where (H, L) = (SHA-256, 32) P-224, (SHA-256, 48) P-256, (SHA-384, 72) P-384, (SHA-512, 98) P-521.
+// The hash-to-field parameters of the key-blinding draft per curve: (hash, L) =
+// (SHA-256, 32) P-224, (SHA-256, 48) P-256, (SHA-384, 72) P-384, (SHA-512, 98) P-521.
 //
-//@ spec opaque
-func SpecH2F(c elliptic.Curve, msg string) Mathint { return 0 }
+//@ spec
+func specCurveHash(name string) crypto.Hash {
+	switch name {
+	case "P-224", "P-256":
+		return crypto.SHA256
+	case "P-384":
+		return crypto.SHA384
+	}
+	return crypto.SHA512
+}
 
-//@ spec opaque
-func SpecCurveSupported(c elliptic.Curve) bool { return false }
+//@ spec
+func specCurveL(name string) int {
+	switch name {
+	case "P-224":
+		return 32
+	case "P-256":
+		return 48
+	case "P-384":
+		return 72
+	}
+	return 98
+}
 
-//@ lemma auto trusted
-//@ ensures SpecH2F(c, msg) >= 0 && SpecH2F(c, msg) < ECOrder(c)
-func axH2FRange(c elliptic.Curve, msg string) {}
+//@ spec
+func SpecCurveSupported(c elliptic.Curve) bool {
+	n := ECName(c)
+	return n == "P-224" || n == "P-256" || n == "P-384" || n == "P-521"
+}
 
-//@ lemma auto trusted
-//@ ensures SpecCurveSupported(CurveP384())
-func axP384Supported() {}
+// SpecH2F(c, msg): hash_to_field(msg) with expand_message_xmd(H_c), DST "ECDSA Key Blind", modulus N_c and
+// security length L_c.
+//
+//@ spec
+func SpecH2F(c elliptic.Curve, msg string) Mathint {
+	return H2FXMD(specCurveHash(ECName(c)), "ECDSA Key Blind", msg, ECOrder(c), specCurveL(ECName(c)))
+}
 
 // SpecBlindScalar: the blinding factor for blind key scalar d and context ctx.
 //
@@ -136,21 +161,21 @@ func SpecBlindScalar(c elliptic.Curve, d Mathint, ctx string) Mathint {
 	return SpecH2F(c, BEMin(d)+B1(0)+ctx)
 }
 
-// hashBlind is outside the modelled subset (it passes a pointer into a local [1]big.Int array to
-// circl's HashToField); its contract is assumed.
+// hashBlind: the blinding factor is hash_to_field of (minimal big-endian bytes of the blind key's scalar ||
+// 0x00 || context) with the curve's parameters. It writes nothing that existed before the call.
 //
 //@ func hashBlind(c elliptic.Curve, sk *PrivateKey, context []byte) (k *big.Int, err error)
-//@ props C08 C12
-//@ trusted array of big.Int values passed to circl group.HashToField
-//@ requires c != nil && sk != nil && sk.D != nil && BigVal(sk.D) >= 0
+//@ props C03 C08 C12 C16 C17
+//@ requires c != nil && sk != nil && sk.D != nil && BigVal(sk.D) >= 0 && BitLenOf(BigVal(sk.D)) <= 1<<32
 //@ ensures (err == nil) == SpecCurveSupported(c)
 //@ ensures err == nil ==> k != nil && fresh(k) && BigVal(k) == SpecBlindScalar(c, BigVal(sk.D), string(context))
 //@ assigns none
+//@ alloc 4*BitLenOf(BigVal(sk.D)) + 16*len(context) + 4096
 //@ end
 
 //@ func BlindPublicKeyWithContext(c elliptic.Curve, pk *PublicKey, bk *PrivateKey, context []byte) (res *PublicKey, err error)
 //@ props C03 C06 C07 C08 C12 C16 C17
-//@ requires c != nil && pk != nil && pk.X != nil && pk.Y != nil && ECOnCurve(c, BigVal(pk.X), BigVal(pk.Y)) && bk != nil && bk.D != nil && BigVal(bk.D) >= 0
+//@ requires c != nil && pk != nil && pk.X != nil && pk.Y != nil && ECOnCurve(c, BigVal(pk.X), BigVal(pk.Y)) && bk != nil && bk.D != nil && BigVal(bk.D) >= 0 && BitLenOf(BigVal(bk.D)) <= 1<<32
 //@ let k = SpecBlindScalar(c, BigVal(bk.D), string(context))
 //@ ensures (err == nil) == SpecCurveSupported(c)
 //@ ensures err == nil ==> res != nil && fresh(res) && res.Curve == c && res.X != nil && res.Y != nil && res.X != res.Y
@@ -161,7 +186,7 @@ func SpecBlindScalar(c elliptic.Curve, d Mathint, ctx string) Mathint {
 
 //@ func UnblindPublicKeyWithContext(c elliptic.Curve, pk *PublicKey, bk *PrivateKey, context []byte) (res *PublicKey, err error)
 //@ props C03 C08 C12 C16 C17
-//@ requires c != nil && pk != nil && pk.X != nil && pk.Y != nil && ECOnCurve(c, BigVal(pk.X), BigVal(pk.Y)) && bk != nil && bk.D != nil && BigVal(bk.D) >= 0
+//@ requires c != nil && pk != nil && pk.X != nil && pk.Y != nil && ECOnCurve(c, BigVal(pk.X), BigVal(pk.Y)) && bk != nil && bk.D != nil && BigVal(bk.D) >= 0 && BitLenOf(BigVal(bk.D)) <= 1<<32
 //@ requires Invertible(SpecBlindScalar(c, BigVal(bk.D), string(context)), ECOrder(c))
 //@ let k = ModInv(SpecBlindScalar(c, BigVal(bk.D), string(context)), ECOrder(c))
 //@ ensures (err == nil) == SpecCurveSupported(c)
